@@ -343,6 +343,95 @@ def run(prog: Program, col: Collector, tier: str, refs: Optional[Refs] = None, c
             col.unresolved(construct, f"the subtracted term `{norm(M)[:50]}` is not a maximum of `{norm(L)}`", ts.loc(ex))
     if n7 == 0:
         col.unresolved(f"{ts.fq}::stabilised softmax", "no exp(logits - max) / sum(...) found", ts.loc())
+    # ---------------------------------------------------------------- R14.11 mass balance of the mixture branch of Contraction._sample
+    col.rule("R14.11", "what Contraction._sample subtracts from the terms of the result (the Gaussian's normaliser) was added to the weights that are sampled", floor=1)
+    cs = require_func(prog, "funsor.cnf::Contraction._sample")
+    n11 = 0
+    for blk_owner in ast.walk(cs.node):
+        if not isinstance(blk_owner, ast.If):
+            continue
+        for blk in (blk_owner.body, blk_owner.orelse):
+            # appended negations: L.append(-E)
+            negs = [c.args[0].operand for st in blk for c in ast.walk(st) if isinstance(st, ast.Expr) and isinstance(c, ast.Call) and isinstance(c.func, ast.Attribute) and c.func.attr == "append"
+                    and c.args and isinstance(c.args[0], ast.UnaryOp) and isinstance(c.args[0].op, ast.USub)]
+            if not negs:
+                continue
+            samples = [c for st in blk for c in ast.walk(st) if isinstance(st, ast.Expr) and isinstance(c, ast.Call) and isinstance(c.func, ast.Attribute) and c.func.attr == "_sample"]
+            for E in negs:
+                for sc in samples:
+                    n11 += 1
+                    recv = sc.func.value
+                    construct = f"{cs.fq}::{norm(sc)[:40]} / -{norm(E)}"
+                    dfn = recv
+                    if isinstance(recv, ast.Name):
+                        ds = [st.value for st in blk if isinstance(st, ast.Assign) and len(st.targets) == 1 and norm(st.targets[0]) == recv.id]
+                        dfn = ds[-1] if ds else None
+                        unpacked = [st for st in blk if isinstance(st, ast.Assign) and isinstance(st.targets[0], (ast.Tuple, ast.List))
+                                    and any(isinstance(t, ast.Name) and t.id == recv.id for t in st.targets[0].elts)]
+                        if dfn is None and unpacked and not any(norm(E) in norm(y) for st in unpacked for y in ast.walk(st.value) if isinstance(y, ast.expr)):
+                            col.violation(construct, f"`-{norm(E)}` is appended to the terms of the result, but `{recv.id}` - one of the raw terms, as unpacked by `{norm(unpacked[0])[:40]}` - is "
+                                          f"what is sampled, without `+ {norm(E)}`: the components are drawn with the wrong probabilities and the total mass of the sample differs from the "
+                                          "mixture's mass by the Gaussian's normaliser", cs.loc(sc))
+                            continue
+                    if dfn is None:
+                        col.unresolved(construct, f"definition of `{norm(recv)}` not found in the branch", cs.loc(sc))
+                        continue
+                    # E occurs as a summand of the definition
+                    def summands(e):
+                        if isinstance(e, ast.BinOp) and isinstance(e.op, ast.Add):
+                            return summands(e.left) + summands(e.right)
+                        return [norm(e)]
+                    if norm(E) in summands(dfn):
+                        col.ok(construct, f"`{norm(recv)}` = {norm(dfn)[:50]} carries the subtracted term", cs.loc(sc))
+                    elif isinstance(dfn, (ast.Name, ast.BinOp, ast.Attribute)) and not any(norm(E) in norm(y) for y in ast.walk(dfn) if isinstance(y, ast.expr)):
+                        col.violation(construct, f"`-{norm(E)}` is appended to the terms of the result, but the weights that are sampled are `{norm(dfn)[:50]}`, without `+ {norm(E)}`: the "
+                                      "components are drawn with the wrong probabilities and the total mass of the sample differs from the mixture's mass by the Gaussian's normaliser", cs.loc(sc))
+                    else:
+                        col.unresolved(construct, f"`{norm(dfn)[:50]}` not a plain sum", cs.loc(sc))
+    if n11 == 0:
+        col.unresolved(f"{cs.fq}::mixture branch", "no branch that appends a negated normaliser and samples was found", cs.loc())
+    # ---------------------------------------------------------------- R14.12 (= C13 R13.13) the remaining Gaussian is ADDED to the normaliser term
+    col.rule("R14.12", "_marginalize_after_split adds the remaining Gaussian to the normaliser of the integrated block in both arms (shared with C13 R13.13)", floor=2)
+    from . import c13
+    c13._accumulator_kept(prog, col, refs)
+    # ---------------------------------------------------------------- R14.13 importance weight of a Monte-Carlo sample
+    col.rule("R14.13", "monte_carlo_approximate returns sample + model - guide", floor=1)
+    mc = require_func(prog, "funsor.montecarlo::monte_carlo_approximate")
+    if len(mc.positional) >= 4:
+        model_p, guide_p = mc.positional[2], mc.positional[3]
+        samp = next((norm(st.targets[0]) for st in walk_no_nested(mc.node) if isinstance(st, ast.Assign) and isinstance(st.value, ast.Call) and isinstance(st.value.func, ast.Attribute)
+                     and st.value.func.attr in ("sample", "_sample") and norm(st.value.func.value) == guide_p), None)
+
+        def lin(e, sign=1, acc=None):
+            acc = {} if acc is None else acc
+            if isinstance(e, ast.BinOp) and isinstance(e.op, (ast.Add, ast.Sub)):
+                lin(e.left, sign, acc)
+                lin(e.right, sign if isinstance(e.op, ast.Add) else -sign, acc)
+            elif isinstance(e, ast.UnaryOp) and isinstance(e.op, ast.USub):
+                lin(e.operand, -sign, acc)
+            elif isinstance(e, ast.Name):
+                acc[e.id] = acc.get(e.id, 0) + sign
+            else:
+                acc["?"] = 1
+            return acc
+        defs_ = {norm(st.targets[0]): st.value for st in walk_no_nested(mc.node) if isinstance(st, ast.Assign) and len(st.targets) == 1 and isinstance(st.targets[0], ast.Name)}
+        for r in walk_no_nested(mc.node):
+            if not (isinstance(r, ast.Return) and r.value is not None):
+                continue
+            v = r.value
+            if isinstance(v, ast.Name) and v.id in defs_ and v.id not in (model_p, guide_p):
+                v = defs_[v.id]
+            if isinstance(v, ast.Name) and v.id == model_p:
+                continue  # "cannot progress": the model itself
+            acc = lin(v)
+            construct = f"{mc.fq}::return {norm(v)[:40]}"
+            if samp is None or "?" in acc:
+                col.unresolved(construct, "not a signed sum of the sample, the model and the guide", mc.loc(r))
+            else:
+                want = {samp: 1, model_p: 1, guide_p: -1}
+                col.check(acc == want, construct, f"{samp} + {model_p} - {guide_p}",
+                          f"the result is {' '.join(('+' if c > 0 else '-') + k for k, c in acc.items())}: the Delta drawn from the guide carries the weight model - guide at the drawn point "
+                          f"(importance weight); with the roles swapped the mass of the approximation is off by exp(2 (guide - model))", mc.loc(r))
     col.rule("R14.6", "a function that discards the shift returned by _compress_rank does not compute a normaliser from the compressed factors", floor=1)
     n6 = 0
     for f in prog.functions_in(prog.modules["funsor.gaussian"]):
